@@ -10,7 +10,8 @@ LEVEL = "exploration"
 LEVEL_TEXT = ("Generated programs of 1-6 producer threads (post, timers with past/equal/near/far deadlines, timer cancel by any thread, "
               "set_io_event / cancel_io_events on socket pairs whose readiness other operations create, deadline_timer and stream_socket "
               "operations carried onto the loop thread, throwing handlers, stop racing with posts) run against one io_service per "
-              "reactor {select, poll, epoll}; every handler must be invoked exactly once on the loop thread, with success only if its event "
+              "reactor {select, poll, epoll} over 1-3 epochs (drain, stop from another thread while the loop sleeps / from a handler, run() returns, "
+              "reset(), run() again on the same or a new thread, then one cross-thread operation at a time while the loop sleeps); every handler must be invoked exactly once on the loop thread, with success only if its event "
               "happened (timers: not before the deadline) and with canceled only if a cancel call had not returned before it was armed (descriptor operations take "
               "effect in call order; a cancel must deliver every handler registered before it). Pool programs: at most once, "
               "exactly once unless cancel() returned true, throwing jobs keep the workers alive.")
@@ -18,7 +19,8 @@ LEVEL_NOTE = ("Thread schedules are sampled by the OS scheduler with generated n
               "observes both accesses. Liveness is decided by a quiescence argument (loop blocked indefinitely, nothing ready, all other "
               "threads waiting), for the pool only by a watchdog (inconclusive).")
 DESIGN_REF = "3/C17"
-RULE = ("case = (reactor, final mode drain|stop-race, socket pairs, per-producer operation lists). Non-trivial: the program contains a cancel "
+RULE = ("case = (reactor, final mode drain|stop-race, socket pairs, per-producer operation lists, epochs with stop mode / restart mode / probe "
+        "order). Non-trivial: more than one epoch (stop, reset, run again), or the program contains a cancel "
         "(timer, descriptor, deadline_timer, stream) or two producers touch the same descriptor or stop races with the producers; pool: more "
         "than one poster, a cancel, a throwing job or stop-race. Distinct = hash of the encoded case. Classes loop.* / pool.* count what "
         "actually happened at run time (fired / canceled / fired despite cancel / cancel after fire / armed during or after a cancel call / "
@@ -42,7 +44,7 @@ def include_known():
 
 def budget(tier):
     # cases per unit: lt = loop/tsan (one unit per reactor), la = loop/asan (reactor drawn per case), pt / pa = pool tsan / asan; sh = shards of each
-    return dict(lt=3000, la=4500, pt=3000, pa=4000, sh=1) if tier == "quick" else dict(lt=24000, la=30000, pt=30000, pa=40000, sh=2)
+    return dict(lt=2200, la=3500, pt=3000, pa=4000, sh=1) if tier == "quick" else dict(lt=16000, la=20000, pt=30000, pa=40000, sh=2)
 
 
 def units(bins, tier, seed):
@@ -60,13 +62,17 @@ def units(bins, tier, seed):
         us.append(Unit("c17_sched_asan.pool.%d" % k, [bins["c17_sched_asan"], "--only", "pool"],
                        env={"RC_PARAMS": rc_params(seed * 1000 + i, b["pa"], 100)}, group="pool-asan", timeout=1500 if tier == "quick" else 5400)); i += 1
     if include_known():    # all reactors x {re-arm after cancel, cancel after queued arm, number re-used via dup2, via close + socketpair}
-        us.append(Unit("c17_sched_asan.fdops", [bins["c17_sched_asan"]], env={"C17_MODE": "fdops"}, group="fdops", timeout=1800))
+        # + restart grid: reactor x {stop from another thread while the loop sleeps, stop from a handler} x {same thread, new thread runs again}
+        #   x first operation after reset() {post, timer, timer+cancel, io+ready, io+cancel, stop}  (72 two-epoch cases of the loop property)
+        us.append(Unit("c17_sched_asan.fixed", [bins["c17_sched_asan"]], env={"C17_MODE": "fixed"}, group="fixed", timeout=1800))
     return us
 
 
 def floor(tier):
     b = budget(tier)
     f = {"loop-asan": b["la"] * b["sh"], "pool-tsan": b["pt"] * b["sh"], "pool-asan": b["pa"] * b["sh"]}
+    if include_known():
+        f["fixed"] = 12 + 72
     for rn in REACTORS.values():
         f["loop-tsan-" + rn] = b["lt"] * b["sh"]
     return f
@@ -87,6 +93,12 @@ def replay(path):
 IOS = "booster/lib/aio/src/io_service.cpp"
 TP = "src/thread_pool.cpp"
 MUTATIONS = [
+    # wake-ups are coalesced with a flag that io_service::reset() forgets to clear: after stop() from another thread + reset() + run()
+    # no cross-thread operation wakes the sleeping loop any more (same class as seeded/C17-2, placed in io_service instead of the interrupter)
+    dict(name="wake-coalescing-flag-survives-reset", edits=[
+        (IOS, "\tvoid wake()\n\t{\n\t\tinterrupter_.notify();\n\t}", "\tvoid wake()\n\t{\n\t\tif(wake_pending_)\n\t\t\treturn;\n\t\twake_pending_ = true;\n\t\tinterrupter_.notify();\n\t}"),
+        (IOS, "\t\t\t\tinterrupter_.clean();\n", "\t\t\t\tinterrupter_.clean();\n\t\t\t\twake_pending_ = false;\n"),
+        (IOS, "\tunsigned seed_;\n", "\tunsigned seed_;\n\tbool wake_pending_ = false;\n")]),
     # reverts fix b2c5482: a descriptor operation is executed directly although earlier ones are still queued
     dict(name="fd-ops-fifo-regression", edits=[(IOS, "if(polling_ || !reactor_.get() || deferred_fd_ops_ > 0) {", "if(polling_ || !reactor_.get()) {")]),
     # S(i): cancel_timer_event leaves the (now handler-less) registration in the timer table
